@@ -21,7 +21,7 @@ from typing import Any, Callable, Iterable
 from . import env
 
 ROOT = env.ROOT
-MAX_ROOT_CAUSES = 6  # re-runs of a Hypothesis property after a (recorded) failure bucket
+MAX_ROOT_CAUSES = 6  # re-runs of a Hypothesis property after a (recorded) failure bucket (3 in the quick tier)
 
 
 # ------------------------------------------------------------------------------------------------
@@ -89,6 +89,10 @@ class HarnessError(Exception):
     pass
 
 
+class _AbortShrink(BaseException):
+    """Shrink budget exhausted: leave the Hypothesis engine at once (BaseException so that it is not swallowed)."""
+
+
 def _innermost_frame(tb) -> tuple[str, str, int]:
     last = traceback.extract_tb(tb)[-1]
     return last.filename, last.name, last.lineno or 0
@@ -134,8 +138,9 @@ class Ctx:
         self._t_first = 0.0
         self._failing: set[bytes] = set()
         self._last: dict | None = None
+        self._last_size = 0
         self._prop = ""
-        self.shrink_budget = 45.0 if tier == "quick" else 180.0
+        self.shrink_budget = 15.0 if tier == "quick" else 120.0
         self.deadline: float | None = None
 
     # --- measuring -------------------------------------------------------------------------------
@@ -187,11 +192,13 @@ class Ctx:
         elif label != self._target:
             raise SkipCase()
         h = digest(case)
-        if time.time() - self._t_first > self.shrink_budget and h not in self._failing:
-            raise SkipCase()
         self._failing.add(h)
-        self._last = {"property": self.pid, "prop": self._prop, "label": label, "case": enc(case),
-                      "detail": enc(detail)}
+        rec = {"property": self.pid, "prop": self._prop, "label": label, "case": enc(case), "detail": enc(detail)}
+        size = len(json.dumps(rec["case"]))
+        if self._last is None or size <= self._last_size:
+            self._last, self._last_size = rec, size
+        if time.time() - self._t_first > self.shrink_budget:
+            raise _AbortShrink()
         raise Violation(label)
 
     def check(self, cond: bool, label: str, case: Any, detail: Any = None) -> None:
@@ -247,7 +254,7 @@ class Ctx:
         import hypothesis
         from hypothesis import HealthCheck, Phase, given, settings
 
-        for rnd in range(MAX_ROOT_CAUSES):
+        for rnd in range(3 if self.tier == "quick" else MAX_ROOT_CAUSES):
             self._begin(prop)
             sd = int.from_bytes(hashlib.blake2b(f"{self.seed}/{self.shard}/{prop}/{rnd}".encode(),
                                                 digest_size=6).digest(), "big")
@@ -267,12 +274,17 @@ class Ctx:
 
             try:
                 test()
-            except Violation:
+            except (Violation, _AbortShrink):
                 self._record()
                 continue
             except HarnessError:
                 raise
             except hypothesis.errors.HypothesisException as ex:
+                if self._last is not None:
+                    # shrinking was cut short (budget => Hypothesis sees 'flaky' behaviour); the recorded case did fail
+                    self.classes["shrink_interrupted"] += 1
+                    self._record()
+                    continue
                 raise HarnessError(f"hypothesis: {type(ex).__name__}: {ex}") from ex
             break
         self._begin("")
